@@ -133,6 +133,11 @@ fn main() {
             }
         }
     }
+    // --known FILE: the function names the unit's pinned extraction (base.rs) has; a method of a wholly selected impl that is not
+    // among them is a helper that was split off later (R35) and is inlined at its call sites instead of being emitted without a contract
+    let known: Option<std::collections::HashSet<String>> = args.iter().position(|a| a == "--known").and_then(|p| args.get(p + 1)).map(|f| {
+        std::fs::read_to_string(f).unwrap_or_default().split_whitespace().map(|s| s.to_string()).collect()
+    });
     let mut out = String::new();
     let mut lifted: Vec<Item> = vec![];
     for unit in &units {
@@ -140,9 +145,92 @@ fn main() {
             let path = format!("{}/{}", repo, src.file);
             let text = std::fs::read_to_string(&path).unwrap_or_else(|e| fail(&format!("lost anchor: cannot read {path}: {e}")));
             let file = syn::parse_file(&text).unwrap_or_else(|e| fail(&format!("cannot parse {path}: {e}")));
+            // R35: free functions of this file that no loaded unit selects (helpers split off a selected function)
+            let mut selected_fns: std::collections::HashSet<String> = Default::default();
+            for u in &units {
+                for s2 in &u.source {
+                    if s2.file == src.file {
+                        for sel in &s2.select {
+                            if let Some(rest) = sel.trim().strip_prefix("fn ") {
+                                selected_fns.insert(rest.trim().to_string());
+                            }
+                        }
+                    }
+                }
+                for l in &u.lift {
+                    selected_fns.insert(l.name.clone());
+                }
+            }
+            // associated helpers: methods of inherent impls of this file that no select entry names (partial selections) or that the
+            // pinned extraction does not know (whole-impl selections)
+            let mut whole: std::collections::HashSet<String> = Default::default();
+            let mut listed: std::collections::HashSet<(String, String)> = Default::default();
+            for u in &units {
+                for s2 in &u.source {
+                    if s2.file != src.file {
+                        continue;
+                    }
+                    for sel in &s2.select {
+                        let sel = sel.trim();
+                        let Some(rest) = sel.strip_prefix("impl ") else { continue };
+                        if rest.contains(" for ") {
+                            continue;
+                        }
+                        match rest.find("::{") {
+                            Some(p) => {
+                                let ty = rest[..p].trim().to_string();
+                                for m in rest[p + 3..].trim_end_matches('}').split(',') {
+                                    listed.insert((ty.clone(), m.trim().to_string()));
+                                }
+                            }
+                            None => {
+                                whole.insert(rest.trim().to_string());
+                            }
+                        }
+                    }
+                }
+            }
+            let mut assoc_helpers: std::collections::HashMap<(String, String), syn::ImplItemFn> = Default::default();
+            for it in &file.items {
+                if let Item::Impl(im) = it {
+                    if im.trait_.is_some() {
+                        continue;
+                    }
+                    let tn = type_name(&im.self_ty);
+                    for m in &im.items {
+                        if let syn::ImplItem::Fn(f) = m {
+                            let n = f.sig.ident.to_string();
+                            let is_helper = if whole.contains(&tn) {
+                                known.as_ref().map_or(false, |k| !k.contains(&n))
+                            } else {
+                                !listed.contains(&(tn.clone(), n.clone())) && listed.iter().any(|(t, _)| *t == tn)
+                            };
+                            if is_helper {
+                                assoc_helpers.insert((tn.clone(), n), f.clone());
+                            }
+                        }
+                    }
+                }
+            }
+            let mut helpers: std::collections::HashMap<String, syn::ItemFn> = Default::default();
+            for it in &file.items {
+                if let Item::Fn(f) = it {
+                    let n = f.sig.ident.to_string();
+                    let is_test = f.attrs.iter().any(|a| a.path().is_ident("test") || a.path().is_ident("cfg"));
+                    if !selected_fns.contains(&n) && !is_test {
+                        helpers.insert(n, f.clone());
+                    }
+                }
+            }
             for sel in &src.select {
                 let items = select(&file, sel).unwrap_or_else(|e| fail(&format!("lost anchor: {sel} in {}: {e}", src.file)));
                 for mut item in items {
+                    // helper methods of a wholly selected impl are not emitted
+                    if let Item::Impl(im) = &mut item {
+                        let tn = type_name(&im.self_ty);
+                        im.items.retain(|m| !matches!(m, syn::ImplItem::Fn(f) if assoc_helpers.contains_key(&(tn.clone(), f.sig.ident.to_string()))));
+                    }
+                    rules::inline_helpers(&mut item, &helpers, &assoc_helpers, &mut log);
                     if !src.rename.is_empty() {
                         rules::rename_idents(&mut item, &src.rename, &mut log);
                     }
